@@ -22,8 +22,8 @@ ASSUMPTIONS = [
 N = {"quick": (3000, 250), "thorough": (100000, 8000)}
 
 
-def acceptance(ck, cmd, n):
-    out = ck.harness(cmd, n, timeout=7000)
+def acceptance(ck, cmd, n, extra_args=()):
+    out = ck.harness(cmd, n, timeout=7000, extra_args=extra_args)
     if out is None:
         return
     impl = common.read_lines(os.path.join(out, "impl.txt"))
@@ -96,6 +96,12 @@ def run(ck):
     # acceptance sweeps: generated programs, then call signatures (parameter type shapes x argument forms)
     for cmd, n in (("c08", nprog), ("c08sig", max(300, nprog // 2))):
         acceptance(ck, cmd, n)
+    # hand-written valid programs walking corners of the grammar (const_assert forms, template argument expressions and
+    # closers, trailing commas, untyped module constants)
+    wdir = os.path.join(common.VERIF, "corpus", "C08")
+    files = tuple(sorted(os.path.join(wdir, f) for f in os.listdir(wdir) if f.endswith(".wgsl"))) if os.path.isdir(wdir) else ()
+    if files:
+        acceptance(ck, "c08corpus", 0, extra_args=files)
     # bounded exhaustive test (a test, not a theorem): every string over a small alphabet that is one numeric literal of the
     # WGSL grammar (regular expressions transcribed from the specification, Naga.Model.LitSpec) must be one token of the right
     # kind for the lexer model, which the token correspondence of C19 ties to the real lexer
